@@ -546,7 +546,46 @@ UnsatCases ==
         f \in {"dir", "loc", "loc-xy2", "loc-cxy", "scalar-x", "scalar-x2", "size", "size-circle", "size-ellipse", "size-line", "size-width",
                "line-xy1", "surround", "inside", "connector", "points"}}
 
-Cases == CASE Family = "textlines" -> TextLineCases [] Family = "unsat" -> UnsatCases [] Family = "solve" -> SolveCases
+(***************************************************************************)
+(* C08: the box of a <path> - path data as a little machine.  State: the   *)
+(* current point, the start of the current sub-path, the points visited.   *)
+(* Every moveto starts a new sub-path; a closepath returns to the start of *)
+(* the current one, and what follows (relative commands included) goes on  *)
+(* from there.  Straight commands only: their box is the hull of the       *)
+(* points visited.  Coordinates in user units (the harness scales).        *)
+(***************************************************************************)
+PathCmds == {<<"m", 6, 0>>, <<"M", 10, 9>>, <<"l", 3, -2>>, <<"L", 0, 8>>, <<"h", 5, 0>>, <<"H", -3, 0>>, <<"v", 4, 0>>, <<"V", 1, 0>>,
+             <<"z", 0, 0>>, <<"Z", 0, 0>>, <<"l", -4, -5>>}
+IsMove(k) == k[1] \in {"M", "m"}
+IsClose(k) == k[1] \in {"z", "Z"}
+PathStep(st, k) ==
+    LET cur == st.cur
+        nxt == CASE k[1] = "M" -> <<k[2], k[3]>> [] k[1] = "m" -> <<cur[1] + k[2], cur[2] + k[3]>>
+                 [] k[1] = "L" -> <<k[2], k[3]>> [] k[1] = "l" -> <<cur[1] + k[2], cur[2] + k[3]>>
+                 [] k[1] = "H" -> <<k[2], cur[2]>> [] k[1] = "h" -> <<cur[1] + k[2], cur[2]>>
+                 [] k[1] = "V" -> <<cur[1], k[2]>> [] k[1] = "v" -> <<cur[1], cur[2] + k[2]>>
+                 [] OTHER -> st.start
+    IN [cur |-> nxt, start |-> IF IsMove(k) THEN nxt ELSE st.start, pts |-> st.pts \cup {nxt}]
+RECURSIVE PathRun(_, _)
+PathRun(st, ks) == IF ks = <<>> THEN st ELSE PathRun(PathStep(st, Head(ks)), Tail(ks))
+PathStart == <<2, 3>>
+PathBoxOf(ks) ==
+    LET st == PathRun([cur |-> PathStart, start |-> PathStart, pts |-> {PathStart}], ks)
+    IN B(CHOOSE x \in {p[1] : p \in st.pts} : \A p \in st.pts : x <= p[1], CHOOSE y \in {p[2] : p \in st.pts} : \A p \in st.pts : y <= p[2],
+         CHOOSE x \in {p[1] : p \in st.pts} : \A p \in st.pts : x >= p[1], CHOOSE y \in {p[2] : p \in st.pts} : \A p \in st.pts : y >= p[2])
+\* a moveto that draws nothing (followed by another moveto, a closepath or the end) is left
+\* out: whether such a point belongs to the box is not stated anywhere
+PathOK(ks) == \A i \in 1..Len(ks) : IsMove(ks[i]) => (i < Len(ks) /\ ~IsMove(ks[i + 1]) /\ ~IsClose(ks[i + 1]))
+PathSeqs == UNION {[1..k -> PathCmds] : k \in 1..(IF Tier = "quick" THEN 3 ELSE 4)}
+PathBoxCases ==
+    {[fam |-> "pathbox", cmds |-> ks, box |-> PathBoxOf(ks)] : ks \in {s \in PathSeqs : PathOK(s) /\ ~IsClose(s[1])}}
+PathBoxIdentities ==
+    c.fam = "pathbox" =>
+        \* the start point is in the box; a closepath alone never changes the box
+        /\ c.box.x1 <= PathStart[1] /\ c.box.x2 >= PathStart[1] /\ c.box.y1 <= PathStart[2] /\ c.box.y2 >= PathStart[2]
+        /\ (IsClose(c.cmds[Len(c.cmds)]) /\ Len(c.cmds) > 1) => c.box = PathBoxOf(SubSeq(c.cmds, 1, Len(c.cmds) - 1))
+
+Cases == CASE Family = "textlines" -> TextLineCases [] Family = "pathbox" -> PathBoxCases [] Family = "unsat" -> UnsatCases [] Family = "solve" -> SolveCases
            [] Family = "textpos" -> TextPosCases
            [] Family = "contain" -> ContainCases
            [] Family = "conn" -> ConnCases
